@@ -71,6 +71,7 @@ type Engine struct {
 	curInstr    ssa.Instruction
 	altForm     map[string]string // universally quantified formula -> equivalent conjunction with index-shifted variants
 	altOnly     map[string][]string
+	loopTimeCtx string // clock at entry of the loop whose clause is being evaluated
 }
 
 // enrich rewrites universally quantified formulas that have an index-shifted variant into the
@@ -193,6 +194,9 @@ func (e *Engine) recStoreIf(st *State, heap string, base T, cond T) {
 				continue
 			}
 			goal := fmt.Sprintf("(> (newid %s) 0)", base.S)
+			if since, ok := f.condSince[head]; ok {
+				goal = fmt.Sprintf("(>= (newid %s) %s)", base.S, since)
+			}
 			for _, b := range bases {
 				goal = fmt.Sprintf("(or %s (= %s %s))", goal, base.S, b)
 			}
@@ -261,6 +265,10 @@ const smtPrelude = `(set-option :produce-models true)
 (declare-fun eidx (Ref) Int)
 (assert (forall ((b Ref) (i Int)) (! (and (= (ebase (eref b i)) b) (= (eidx (eref b i)) i) (= (rkind (eref b i)) 1) (= (newid (eref b i)) (newid b))) :pattern ((eref b i)))))
 (declare-fun err_is_u (Iface Iface) Bool)
+(declare-fun str_lt (String String) Bool)
+(assert (forall ((a String) (b String)) (! (and (not (and (str_lt a b) (str_lt b a))) (or (str_lt a b) (= a b) (str_lt b a))) :pattern ((str_lt a b)))))
+(assert (forall ((a String)) (! (not (str_lt a a)) :pattern ((str_lt a a)))))
+(assert (forall ((a String) (b String) (c String)) (! (=> (and (str_lt a b) (str_lt b c)) (str_lt a c)) :pattern ((str_lt a b) (str_lt b c)))))
 `
 
 func (e *Engine) emit(line string) {
@@ -584,6 +592,8 @@ type Frame struct {
 	params   []Val
 	loopHead map[*ssa.BasicBlock]*State
 	condFrames map[*ssa.BasicBlock]map[string][]string // loop head -> heap -> invariant bases (conditional frames)
+	condSince  map[*ssa.BasicBlock]string              // loop head -> clock at loop entry when the loop is `freshwrites`
+	loopTime   map[*ssa.BasicBlock]string              // loop head -> clock at loop entry
 	curBlock *ssa.BasicBlock
 	blockPC  map[*ssa.BasicBlock]T
 	deferN   int
@@ -591,7 +601,7 @@ type Frame struct {
 
 func (e *Engine) newFrame(fn *ssa.Function, caller *Frame) *Frame {
 	e.frameSeq++
-	f := &Frame{id: e.frameSeq, fn: fn, vals: map[ssa.Value]Val{}, caller: caller, loopHead: map[*ssa.BasicBlock]*State{}, blockPC: map[*ssa.BasicBlock]T{}, condFrames: map[*ssa.BasicBlock]map[string][]string{}}
+	f := &Frame{id: e.frameSeq, fn: fn, vals: map[ssa.Value]Val{}, caller: caller, loopHead: map[*ssa.BasicBlock]*State{}, blockPC: map[*ssa.BasicBlock]T{}, condFrames: map[*ssa.BasicBlock]map[string][]string{}, condSince: map[*ssa.BasicBlock]string{}, loopTime: map[*ssa.BasicBlock]string{}}
 	if caller != nil {
 		f.depth = caller.depth + 1
 		f.spec = caller.spec
@@ -1188,6 +1198,7 @@ func (e *Engine) loadGlobal(st *State, g *ssa.Global) Val {
 		if sort == sIface && e.isErrorSentinel(g) {
 			// sentinel errors: non-nil, pairwise distinct pointers
 			e.emitDecl(fmt.Sprintf("(assert ((_ is if_ref) %s))", name))
+			e.emitDecl(fmt.Sprintf("(assert (= (dtyp %s) %d))", name, e.pseudoTypeID("*errors.errorString(sentinel)")))
 			e.emitDecl(fmt.Sprintf("(assert (= (newid (iref %s)) 0))", name))
 			for _, o := range e.sentinels {
 				e.emitDecl(fmt.Sprintf("(assert (not (= %s %s)))", name, o))
